@@ -12,6 +12,7 @@ mod select;
 mod shutdown;
 mod supervision;
 mod timers;
+mod worker;
 
 pub struct Args(HashMap<String, String>);
 impl Args {
@@ -66,6 +67,7 @@ fn main() {
         "shutdown" => shutdown::run(&args),
         "registry" => registry::run(&args),
         "life" => life::run(&args),
+        "worker_enqueue" => worker::run(&args),
         "routing" => routing::run(&args),
         "timers" => timers::run(&args),
         "select_listen" => select::listen(&args),
